@@ -60,8 +60,6 @@ Ltac esc_frame H s' :=
   inv_ok H; try subst s'; sends; proj_cbn; unfold EscFrame; proj_cbn;
   repeat (split; [reflexivity|]); intros; esc_led.
 
-Lemma fr_create_pair_not : True. Proof. exact Logic.I. Qed.
-
 Lemma fr_new_pool s P a c pr rg ax ay ps s' : new_pool s P a c pr rg ax ay ps = Ok s' -> EscFrame s s'.
 Proof. unfold new_pool, obind. intros H. esc_frame H s'. Qed.
 Lemma fr_deposit_req s a o p x y s' r : deposit_req s a o p x y = Ok (s', r) -> EscFrame s s'.
